@@ -18,3 +18,10 @@ pub fn random_state_new() -> std::collections::hash_map::RandomState {
 pub fn fmt_format(_args: core::fmt::Arguments<'_>) -> String {
     String::new()
 }
+
+/// Fixed wall clock (2020-09-13T12:26:40Z): `clock_gettime` is unsupported FFI. Harnesses that need a symbolic
+/// clock pass `now` explicitly to the kernels instead of stubbing with a symbolic value (keeps native replay aligned).
+#[cfg(kani)]
+pub fn utc_now() -> chrono::DateTime<chrono::Utc> {
+    chrono::DateTime::<chrono::Utc>::from_timestamp(1_600_000_000, 0).unwrap()
+}
